@@ -1010,6 +1010,59 @@ def _f_to_bits(fmt, x):
     return struct.unpack("<Q", struct.pack("<d", x))[0]
 
 
+def _f_finite(a, allow_subnormal=False):
+    """python float of a ('float', fmt, bits) value; NaN / infinity / subnormals are outside the model"""
+    import math
+
+    x = _f_from_bits(a[1], a[2])
+    if math.isnan(x) or math.isinf(x):
+        raise Unmodelled("float NaN/inf")
+    if x != 0.0 and not allow_subnormal:
+        tiny = 1.1754943508222875e-38 if a[1].endswith("32") else 2.2250738585072014e-308
+        if abs(x) < tiny:
+            raise Unmodelled("float subnormal")
+    return x
+
+
+def _f_result(fmt, r, exact=False):
+    import math
+
+    if exact:
+        # r is a Fraction: round once to the target format
+        if fmt.endswith("32"):
+            import numbers
+
+            f = float(r)  # correctly rounded to double (python guarantees round-half-even)
+            # double rounding can differ from a single rounding only on exact ties of the float32 grid
+            bits = struct.unpack("<I", struct.pack("<f", f))[0]
+            back = struct.unpack("<f", struct.pack("<I", bits))[0]
+            import fractions
+
+            if fractions.Fraction(f) != r:
+                # value was inexact in double: check that the float32 neighbour choice is unambiguous
+                lo = struct.unpack("<f", struct.pack("<I", bits - 1 if bits & 0x7FFFFFFF else bits))[0]
+                hi = struct.unpack("<f", struct.pack("<I", bits + 1))[0]
+                for nb in (lo, hi):
+                    if abs(fractions.Fraction(nb) - r) == abs(fractions.Fraction(back) - r):
+                        raise Unmodelled("float tie under double rounding")
+            return ("float", fmt, bits)
+        r = float(r)
+    if math.isnan(r) or math.isinf(r):
+        raise Unmodelled("float overflow")
+    if fmt.endswith("32"):
+        try:
+            bits = struct.unpack("<I", struct.pack("<f", r))[0]
+        except OverflowError:
+            raise Unmodelled("float32 overflow")
+        back = struct.unpack("<f", struct.pack("<I", bits))[0]
+        if math.isinf(back) or (back != 0.0 and abs(back) < 1.1754943508222875e-38) or (back == 0.0 and r != 0.0):
+            raise Unmodelled("float32 overflow/underflow")
+        return ("float", fmt, bits)
+    if r != 0.0 and abs(r) < 2.2250738585072014e-308:
+        raise Unmodelled("double underflow")
+    return ("float", fmt, _f_to_bits(fmt, r))
+
+
 class Ev:
     STEP_BUDGET = 2_000_000
     LOOP_BUDGET = 10_000
@@ -1251,7 +1304,66 @@ class Ev:
             if a[0] != "float":
                 raise ILTypeError(f"F2BV of {a[0]}")
             return bv(FMTW[a[1]], a[2])
+        if op in ("FADD", "FSUB", "FMUL"):
+            self.rmode(t[1], penv)
+            a = P(t[2], penv, lets)
+            b = P(t[3], penv, lets)
+            if a[0] != "float" or b[0] != "float" or a[1] != b[1]:
+                raise ILTypeError(f"{op} of {a[:2]} and {b[:2]}")
+            x, y = _f_finite(a), _f_finite(b)
+            r = x + y if op == "FADD" else (x - y if op == "FSUB" else x * y)
+            m.ops.add(op)
+            return _f_result(a[1], r)
+        if op in ("FEQ", "FLT", "FLE", "FGT", "FGE", "FNEQ"):
+            a = P(t[1], penv, lets)
+            b = P(t[2], penv, lets)
+            if a[0] != "float" or b[0] != "float" or a[1] != b[1]:
+                raise ILTypeError(f"{op} of {a[:2]} and {b[:2]}")
+            x, y = _f_finite(a), _f_finite(b)
+            m.ops.add(op)
+            return ("bool", {"FEQ": x == y, "FLT": x < y, "FLE": x <= y, "FGT": x > y, "FGE": x >= y, "FNEQ": x != y}[op])
+        if op in ("HEX_D_TO_INT", "HEX_D_TO_SINT", "HEX_F_TO_INT", "HEX_F_TO_SINT"):
+            mode = self.rmode(t[1], penv)
+            a = P(t[2], penv, lets)
+            want = "RZ_FLOAT_IEEE754_BIN_64" if "_D_" in op else "RZ_FLOAT_IEEE754_BIN_32"
+            if a[0] != "float" or a[1] != want:
+                raise ILTypeError(f"{op} of {a[:2]}")
+            x = _f_finite(a, allow_subnormal=True)
+            import math
+
+            r = math.trunc(x) if mode == 1 else round(x)
+            if op.endswith("SINT"):
+                if not (-(1 << 63) <= r < (1 << 63)):
+                    raise Unmodelled("float to int out of range")
+            elif not (0 <= r < (1 << 64)):
+                raise Unmodelled("float to int out of range")
+            m.ops.add(op)
+            return bv(64, r)
+        if op in ("HEX_INT_TO_D", "HEX_SINT_TO_D", "HEX_INT_TO_F", "HEX_SINT_TO_F"):
+            self.rmode(t[1], penv)
+            a = need_bv(P(t[2], penv, lets), op)
+            if a[1] != 64:
+                raise ILTypeError(f"{op} of {a[1]} bits")
+            v = sx(64, a[2]) if "SINT" in op else a[2]
+            fmt = "RZ_FLOAT_IEEE754_BIN_64" if op.endswith("_D") else "RZ_FLOAT_IEEE754_BIN_32"
+            m.ops.add(op)
+            if fmt.endswith("32"):
+                # int -> float32 needs a single rounding; go through exact rational arithmetic
+                import fractions
+
+                return _f_result(fmt, fractions.Fraction(v), exact=True)
+            return _f_result(fmt, float(v))
         raise Unmodelled(f"pure op {op}")
+
+    def rmode(self, t, penv):
+        """rounding mode argument: HEX_GET_INSN_RMODE(hi) (the instruction's default: nearest-even) or an enum constant"""
+        if t[0] == "HEX_GET_INSN_RMODE":
+            return 0
+        if t[0] == "id" and t[1] == "RZ_FLOAT_RMODE_RNE":
+            return 0
+        if t[0] == "id" and t[1] == "RZ_FLOAT_RMODE_RTZ":
+            return 1
+        raise Unmodelled(f"rounding mode {t}")
 
     def effect(self, t, penv):
         m = self.m
